@@ -260,6 +260,43 @@ theorem C08_partial :
   | b192 => exact absurd rfl hne
   | raw => exact ⟨C08_roundtrip_raw, fun h => by simp [isText] at h, C08_length_bound_raw⟩
 
+/-! ## lengths without the +8 slack
+
+`C08_length_bound_<codec>` above is the property as worded (ratio · n plus a small constant).  The
+client's size budget (getUpstreamMtu, property C09) keeps a margin of only 10 bytes, which the
+constant 8 does not fit into; what the codecs really emit is tighter, and that is what C09's
+`C09_payload_within_mtu_fits` uses. -/
+
+theorem C08_length_exact_b32 (bs : List Nat) (_hb : Bytes bs) :
+    (encode .b32 bs).length = (8 * bs.length + 4) / 5 := by
+  simp only [encode, b32Enc, List.length_map, radixDigits_length]; omega
+
+theorem C08_length_exact_b64 (bs : List Nat) (_hb : Bytes bs) :
+    (encode .b64 bs).length = (8 * bs.length + 5) / 6 := by
+  simp only [encode, b64EncWith, List.length_map, radixDigits_length]; omega
+
+theorem C08_length_exact_b64u (bs : List Nat) (_hb : Bytes bs) :
+    (encode .b64u bs).length = (8 * bs.length + 5) / 6 := by
+  simp only [encode, b64EncWith, List.length_map, radixDigits_length]; omega
+
+theorem C08_length_exact_b128 (bs : List Nat) (hb : Bytes bs) :
+    (encode .b128 bs).length = (8 * bs.length + 6) / 7 := by
+  simp only [encode, b128Enc, gen_b128_guard, b128_loop_eq_radix bs hb, escape128, List.length_map,
+    radixDigits_length]; omega
+
+/-- ascii85: five characters per four bytes, k+1 for a final group of k bytes (fewer with `z`) -/
+theorem C08_length_tight_b85 (bs : List Nat) (_hb : Bytes bs) :
+    (encode .b85 bs).length ≤ (5 * bs.length + 3) / 4 := by
+  have := a85Enc_length bs
+  simpa only [encode, b85Enc, gen_b85_count, if_true, List.length_map] using this
+
+/-- basE91: two characters per 13 (or 14) bits, at most two for the rest -/
+theorem C08_length_tight_b91 (bs : List Nat) (_hb : Bytes bs) :
+    13 * (encode .b91 bs).length ≤ 16 * bs.length + 26 := by
+  have := b91_length bs 0 0
+  simp only [encode, b91Enc, List.length_map]
+  omega
+
 /-! ## non-vacuity: the hypotheses are satisfiable and the functions compute on real inputs -/
 
 set_option maxRecDepth 100000 in
@@ -284,6 +321,11 @@ set_option maxRecDepth 100000 in
 example : dnsSafe 46 = false ∧ dnsSafe 92 = false ∧ dnsSafe 32 = false ∧ dnsSafe 127 = false ∧ dnsSafe 97 = true := by decide
 set_option maxRecDepth 100000 in
 example : ceilMul (Codec.ratio .b91) 1000 = 1231 ∧ ceilMul (Codec.ratio .b192) 15 = 16 := by decide
+set_option maxRecDepth 100000 in
+/-- the tight bounds are attained: 5 bytes -> 8 Base32 characters, 4 non-zero bytes -> 5 Base85
+    characters, 13 one-bits... 2 bytes of 0xff -> 3 basE91 characters -/
+example : (encode .b32 [1, 2, 3, 4, 5]).length = 8 ∧ (encode .b85 [1, 2, 3, 4]).length = 5 ∧
+    (encode .b91 [255, 255]).length = 3 ∧ (encode .b128 [1, 2, 3, 4, 5, 6, 7]).length = 8 := by decide
 
 end SA.Codec
 
@@ -309,5 +351,11 @@ end SA.Codec
 #print axioms SA.Codec.C08_roundtrip_raw
 #print axioms SA.Codec.C08_length_bound_raw
 #print axioms SA.Codec.C08_length_bound_b192
+#print axioms SA.Codec.C08_length_exact_b32
+#print axioms SA.Codec.C08_length_exact_b64
+#print axioms SA.Codec.C08_length_exact_b64u
+#print axioms SA.Codec.C08_length_exact_b128
+#print axioms SA.Codec.C08_length_tight_b85
+#print axioms SA.Codec.C08_length_tight_b91
 #print axioms SA.Codec.C08_witness_b192
 #print axioms SA.Codec.C08_partial
